@@ -23,11 +23,11 @@ func (d Dict) render(f *File, w io.Writer, s *Statement) error {
 	first := true
 	// must order keys to ensure repeatable source
 	type kv struct {
-		k Code
-		v Code
+		key string
+		k   Code
+		v   Code
 	}
-	lookup := map[string]kv{}
-	keys := []string{}
+	keys := []kv{}
 	for k, v := range d {
 		if k.isNull(f) || v.isNull(f) {
 			continue
@@ -38,13 +38,13 @@ func (d Dict) render(f *File, w io.Writer, s *Statement) error {
 		}
 		verifHook("dictkey", f, buf.String())
 		verifHookObj("dictkey", f, d, k)
-		keys = append(keys, buf.String())
-		lookup[buf.String()] = kv{k: k, v: v}
+		// keep every pair, even when two keys render identically
+		keys = append(keys, kv{key: buf.String(), k: k, v: v})
 	}
-	sort.Strings(keys)
+	sort.SliceStable(keys, func(i, j int) bool { return keys[i].key < keys[j].key })
 	for _, key := range keys {
-		k := lookup[key].k
-		v := lookup[key].v
+		k := key.k
+		v := key.v
 		if first && len(keys) > 1 {
 			if _, err := w.Write([]byte("\n")); err != nil {
 				return err
